@@ -32,7 +32,7 @@ SetMin(S) == CHOOSE x \in S : \A y \in S : x <= y
 M0(U, ev, inputs, rets, temps) ==
    [policy |-> "rec", nq |-> 0, gates |-> <<>>, gcomp |-> <<>>, anc |-> {}, free |-> {}, marked |-> {}, qmap |-> <<>>,
     emap |-> {}, val |-> <<>>, gid |-> 0, ev |-> ev, ci |-> 1, U |-> U,
-    inputs |-> inputs, rets |-> rets, temps |-> temps, err |-> "", flags |-> {}, recycled |-> {}]
+    inputs |-> inputs, rets |-> rets, temps |-> temps, err |-> "", flags |-> {}, recycled |-> {}, cqF |-> -1, cqT |-> -1]
 
 Err(m, e) == IF m.err = "" THEN [m EXCEPT !.err = e] ELSE m
 
@@ -47,6 +47,11 @@ HasKeyByIndex(m, q) == \E i \in 1..Len(m.qmap) : m.qmap[i][2] = q
 KeyByIndex(m, q) == m.qmap[SetMax({i \in 1..Len(m.qmap) : m.qmap[i][2] = q})][1]      \* the LAST name bound to q
 
 AddQubit(m, name, rows) == LET m1 == QSet(m, name, m.nq) IN [m1 EXCEPT !.nq = m.nq + 1, !.val = Append(m.val, rows)]
+\* add_ancilla(): the first anc_<n>, n >= len(ancilla_lst), that names no qubit yet (an argument or a variable may be
+\* called anc_<n>); the shared constant qubits get a name that is new in the circuit and are remembered by index
+AncName(m) == LET RECURSIVE F(_) F(n) == IF QHas(m, "anc_" \o ToString(n)) THEN F(n + 1) ELSE "anc_" \o ToString(n) IN F(Cardinality(m.anc))
+RECURSIVE FreshName(_, _)
+FreshName(m, n) == IF QHas(m, n) THEN FreshName(m, n \o "_") ELSE n
 
 \* ---- gates
 GCtrl(w) == SubSeq(w, 1, Len(w) - 1)
@@ -75,13 +80,13 @@ GetFree(m) ==
   IF m.err # "" THEN [m |-> m, r |-> 0]
   ELSE IF m.policy # "rec" THEN
        (IF m.free = {}
-        THEN LET m1 == AddQubit(m, "anc_" \o ToString(Cardinality(m.anc)), {}) IN [m |-> [m1 EXCEPT !.anc = m.anc \cup {m.nq}], r |-> m.nq]
+        THEN LET m1 == AddQubit(m, AncName(m), {}) IN [m |-> [m1 EXCEPT !.anc = m.anc \cup {m.nq}], r |-> m.nq]
         ELSE LET q == IF m.policy = "min" THEN SetMin(m.free) ELSE SetMax(m.free) IN
              [m |-> [m EXCEPT !.free = m.free \ {q}, !.recycled = @ \cup {q}], r |-> q])
   ELSE IF ~HasEv(m, "g") THEN [m |-> Err(m, "no-ancilla-hand-out-recorded"), r |-> 0]
   ELSE LET v == NextEv(m, "g") IN
   IF m.free = {}
-  THEN LET m1 == AddQubit(m, "anc_" \o ToString(Cardinality(m.anc)), {})
+  THEN LET m1 == AddQubit(m, AncName(m), {})
            m2 == Consume([m1 EXCEPT !.anc = m.anc \cup {m.nq}])
        IN [m |-> IF v = m.nq THEN m2 ELSE Err(m2, "recorded-ancilla-is-not-the-new-qubit"), r |-> m.nq]
   ELSE IF v \in m.free THEN [m |-> Consume([m EXCEPT !.free = m.free \ {v}, !.recycled = @ \cup {v}]), r |-> v]
@@ -196,8 +201,8 @@ CSym(m, e, dest, sym) ==
   ELSE [m |-> IF QHas(m, e.n) THEN m ELSE Err(m, "symbol-not-found"), r |-> QGet(m, e.n)]
 
 CConst(m, e) ==
-  IF e.op = "false" THEN (IF QHas(m, "FALSE") THEN [m |-> m, r |-> QGet(m, "FALSE")] ELSE [m |-> AddQubit(m, "FALSE", {}), r |-> m.nq])
-  ELSE (IF QHas(m, "TRUE") THEN [m |-> m, r |-> QGet(m, "TRUE")] ELSE [m |-> NewGate(AddQubit(m, "TRUE", {}), <<m.nq>>), r |-> m.nq])
+  IF e.op = "false" THEN (IF m.cqF # -1 THEN [m |-> m, r |-> m.cqF] ELSE [m |-> [AddQubit(m, FreshName(m, "FALSE"), {}) EXCEPT !.cqF = m.nq], r |-> m.nq])
+  ELSE (IF m.cqT # -1 THEN [m |-> m, r |-> m.cqT] ELSE [m |-> NewGate([AddQubit(m, FreshName(m, "TRUE"), {}) EXCEPT !.cqT = m.nq], <<m.nq>>), r |-> m.nq])
 
 CExpr(m, e, dest, sym) ==
   IF m.err # "" THEN [m |-> m, r |-> 0]
